@@ -25,6 +25,9 @@ func (c *Ctx) GC(fn *ssa.Function) *GCNF {
 		return g
 	}
 	g := tailRecHelperAsLoop(c, linkStackRecForm(c.p, BuildGCNF(c.p, c.E(), fn)))
+	if fn.Name() == "NextTo" || fn.Name() == "PrevTo" {
+		g = selfTailRecAsLoop(c.p, g)
+	}
 	c.gcs[fn] = g
 	return g
 }
